@@ -27,12 +27,16 @@ TRUSTED = [
     "a prediction transform is walked but not modelled; the generated wiring is also compared in Coq with the connections every built pipeline "
     "object reports (node_input_connections, config.aliases, config.default)",
     "hand-written model of RecQuery.create, UserTrainingHistoryLookup, UnratedTrainingItemsCandidateSelector, the generic wiring interpreter "
-    "(Model/C03_graph.v), train() = replace the held data (Model/C03_pipeline.v: after) "
+    "(Model/C03_graph.v), train() = replace the held data (Model/C03_pipeline.v: after), several objects in one process = each decided by its own "
+    "events (own / after_in: no component instance is shared between pipeline objects) "
     "and FallbackScorer (Model/C03_pipeline.v), tied by correspondence cases evaluated "
     "inside Coq: candidates, looked-up history and fallback merge compared exactly, the (candidates, scorer output, ranking) triple of one "
     "run_all handed to the verified checker rec_ok_b; floats converted to exact rationals, no tolerance",
     "library contracts not verified: numpy argsort/argpartition (only their result is checked, per case), pandas reindex, the pipeline runner "
-    "(C02), Vocabulary order = sorted identifiers (C01), scorers return the items they were given in the same order (C04)",
+    "(C02), Vocabulary order = sorted identifiers (C01), scorers return the items they were given in the same order (C04), ItemList.__getitem__ "
+    "with an integer position array returns the rows at those positions in that order whatever the list's flags / fields (its result is "
+    "checked, per case, for every representation of a supplied candidate list; the translator fails closed when __getitem__ re-binds its "
+    "selector to anything but an array conversion of itself)",
 ]
 ASSUMPTIONS = [
     "item vocabulary has no repeated identifier; caller-supplied candidate lists are duplicate-free (property quantifier)",
@@ -47,7 +51,18 @@ RULE = ("structured generator: datasets of 2-10 users x 3-15 items (users with e
         "configured n and run-time n in {None, -1, 1..20}; malformed stream: scorer without score field, predict_pipeline without items, "
         "run-time n = 0.  Every case is additionally run with several nodes requested from ONE run (rating-predictor then recommender, the "
         "reverse, and run_all() of every node) and with every component node on its own: each requested output must satisfy the property against "
-        "the scoring model's own output, and every node must hold after a run what it produces on its own (no consumer alters a shared output).  Life cycle: 2 of 5 pipelines have an earlier life -- the SAME object was trained on 1-2 other data sets over the same identifier universe (users / items kept, dropped, new; other histories) and asked for every user of both data sets, then trained on the case's data; all observations (history, candidates, every query form, predictions) are compared with the case's data alone.  The scoring model and the fallback model are also called on their own (the component object, the query with the user's current training row, the candidate items) and the pipeline's scorer output and every prediction for an item without a primary score are compared with that, item by item; pipelines with a fallback get NaN-heavy primaries and supplied candidates mixing seen, unseen and unknown items.  non-trivial = no error, >= 3 candidates, a non-empty ranking that leaves out at least one candidate; distinct = by hash of the case")
+        "the scoring model's own output, and every node must hold after a run what it produces on its own (no consumer alters a shared output).  Life cycle: 2 of 5 pipelines have an earlier life -- the SAME object was trained on 1-2 other data sets over the same identifier universe (users / items kept, dropped, new; other histories) and asked for every user of both data sets, then trained on the case's data; all observations (history, candidates, every query form, predictions) are compared with the case's data alone.  The scoring model and the fallback model are also called on their own (the component object, the query with the user's current training row, the candidate items) and the pipeline's scorer output and every prediction for an item without a primary score are compared with that, item by item; pipelines with a fallback get NaN-heavy primaries and supplied candidates mixing seen, unseen and unknown items.  Catalogue size: every run adds two medium (hundreds to thousands of items) and two large catalogues (>= 10^4 items, and at or above every "
+        "integer constant <= 30000 that stats.argtopn / TopNRanker / the candidate selector compare a length with -- read from the source under test), "
+        "candidates from the selector or a supplied list of that size, requested lengths from 1 over N/16 to beyond N, scoring models that can score "
+        "fewer than n, about n, or many more than n of the candidates (synthetic scorer with a NaN share up to 4095/4096, KnownRatingScorer, ItemKNN; "
+        "a dense model on the large catalogue is checked by the oracle alone).  Representation of supplied candidates: identifier list / unordered "
+        "ItemList, NumPy array, ItemList flagged ordered, with a rank field, with stale scores of another model, or shaped like the output of an "
+        "earlier recommendation stage (ordered, ranked, that stage's scores best-first) -- the same form goes to run_all and to lenskit.recommend / "
+        "predict.  Several pipelines in one process: 1 of 3 pipelines has 1-2 OTHER standard pipelines (topn_pipeline / RecPipelineBuilder / "
+        "predict_pipeline, own scorer) built and trained on their own data (same identifier universe, usually a smaller catalogue) before the case's "
+        "pipeline is built or after it has been trained; all objects stay alive, every one is asked only after all have been trained, and each must "
+        "answer from its own training data (candidates of every asked user compared exactly, in Python and against `own k <process history>` in Coq).  "
+        "non-trivial = no error, >= 3 candidates, a non-empty ranking that leaves out at least one candidate; distinct = by hash of the case")
 
 
 def translate():
@@ -183,6 +198,114 @@ def gen_prior(rng, ds):
     return phases
 
 
+ITEM_FORMS = ("ids", "array", "ordered", "ranked", "scored", "prev")
+
+
+def gen_items_form(rng):
+    """How a supplied candidate list reaches the pipeline: identifiers only (a list / an unordered ItemList), a NumPy array,
+    an ItemList flagged ordered, one carrying a rank field, one carrying (stale) scores of some other model, or what an earlier
+    recommendation stage returns (ordered, ranks, that stage's scores in non-increasing order)."""
+    return rng.weighted([("ids", 5), ("array", 1), ("ordered", 3), ("ranked", 2), ("scored", 1), ("prev", 3)])
+
+
+def gen_siblings(rng, ds):
+    """Other standard pipelines alive in the same process: each is built with the standard helpers and trained on its own
+    data (same identifier universe, often a SMALLER catalogue, other histories) either before the case's pipeline is built or
+    after it has been trained; every object is asked only after all of them have been trained."""
+    sibs = []
+    for _ in range(rng.weighted([(1, 3), (2, 1)])):
+        keep = rng.choice([1, 2, 3])
+        users = [u for u in ds["users"] if rng.chance(3, 4)]
+        users += rng.sample([u for u in range(1, 31) if u not in ds["users"]], rng.randint(0, 2))
+        items = [i for i in ds["items"] if rng.chance(keep, 4)]
+        items += rng.sample([i for i in range(1, 41) if i not in ds["items"]], rng.randint(0, 2))
+        if len(users) < 2:
+            users = list(ds["users"][:2])
+        if len(items) < 3:
+            items = list(ds["items"][:3])
+        users, items = sorted(set(users)), sorted(set(items))
+        dens = rng.choice([2, 3, 5])
+        ratings = []
+        for u in users:
+            for i in items:
+                if rng.chance(dens, 8):
+                    ratings.append([u, i, fjson(Fraction(rng.randint(1, 10), 2))])
+        if len(ratings) < 3:
+            ratings = [[users[0], items[0], "4/1"], [users[0], items[1], "5/2"], [users[1], items[0], "3/1"]]
+        scorer = rng.weighted([({"kind": "pop", "score": "count"}, 1), ({"kind": "bias", "damping": 0}, 1),
+                               ({"kind": "synth", "seed": rng.below(1000), "levels": 4, "nan_num": rng.choice([0, 2]), "mode": "item",
+                                 "f32": False, "scores": True}, 3)])
+        both = sorted(set(users) | set(ds["users"]))
+        asked = rng.shuffle(both + rng.sample([u for u in range(1, 35) if u not in both], 1))[:6]
+        sibs.append({"when": rng.choice(["before", "after", "after"]), "kind": rng.weighted([("topn", 3), ("builder", 2), ("predict", 1)]),
+                     "scorer": scorer, "ds": {"users": users, "items": items, "ratings": ratings, "strids": ds["strids"]}, "users": asked})
+    return sibs
+
+
+def size_thresholds():
+    """catalogue sizes at which the ranking path changes its behaviour, read from the source under test"""
+    try:
+        from translate import c03 as t
+        return t.size_constants(common.SRC)
+    except Exception:  # noqa: BLE001
+        return []
+
+
+def gen_big_cases(rng, tier):
+    """Catalogue SIZE as a dimension: per run two (thorough: four) medium (hundreds to thousands of items) and as many large catalogues (>= 10^4 items,
+    and at or above every size threshold <= 30000 found in the ranking path of the source), candidates from the selector (so the
+    ranker sees nearly the whole catalogue) or a supplied list of that size; requested lengths from 1 to beyond the catalogue;
+    scoring models that can score only a handful of the candidates (fewer than n, about n, more than n) or most of them."""
+    ths = [t for t in size_thresholds() if t <= 30000]
+    med, big = [t for t in ths if t < 5000], [t for t in ths if t >= 5000]
+    sizes = []
+    for k in range(2 if tier == "quick" else 4):
+        m = rng.choice(med) if med else rng.randint(400, 2000)
+        b = max(big) if big else 10000
+        sizes += [("medium", m + rng.randint(0, max(m // 4, 8))), ("large", b + rng.randint(0, b // 4))]
+    out = []
+    for d, (cls, N) in enumerate(sizes):
+        r = rng.fork(("big", d))
+        items = list(range(1, N + 1))
+        users = [1, 2, 3, 4]
+        ratings = []
+        for u, cnt in ((1, r.randint(1, 12)), (2, 0), (3, r.randint(20, 60)), (4, r.randint(1, 4))):
+            for i in sorted(r.sample(items[: 4 * N // 5], cnt)):
+                ratings.append([u, i, fjson(Fraction(r.randint(1, 10), 2))])
+        ds = {"users": users, "items": items, "ratings": ratings, "strids": False, "size": cls}
+        ns = [None, -1, 1, 2, 3, 5, 10, 20, 50, 100, max(N // 16 - 1, 1), N // 16, N // 16 + 1, N // 2, N + 5]
+        for pi in range(3):
+            dense = cls == "medium" and pi == 2 or cls == "large" and pi == 2 and r.chance(1, 2)
+            if dense:
+                scorer = r.weighted([({"kind": "synth", "seed": r.below(1000), "levels": r.choice([2, 8]), "nan_num": r.choice([0, 3]), "nan_den": 8,
+                                       "mode": "item", "f32": r.chance(1, 3), "scores": True}, 3),
+                                     ({"kind": "pop", "score": r.choice(["quantile", "rank", "count"])}, 1), ({"kind": "bias", "damping": 0}, 1)])
+            else:
+                den = 4096
+                scorer = r.weighted([({"kind": "synth", "seed": r.below(1000), "levels": r.choice([1, 3, 8]), "nan_num": den - r.choice([1, 3, 10, 40, 160, 600]),
+                                       "nan_den": den, "mode": r.choice(["item", "user"]), "f32": r.chance(1, 3), "scores": True}, 5),
+                                     ({"kind": "known", "score": None}, 1), ({"kind": "iknn", "k": r.randint(1, 3), "feedback": "explicit"}, 1)])
+            kind = r.weighted([("topn", 3), ("builder", 2)])
+            pipe = {"kind": kind, "cfg_n": r.choice(ns), "scorer": scorer, "fallback": None,
+                    "predicts": r.weighted([(False, 4), ("raw", 1)])}
+            for qi in range(2):
+                u = r.weighted([(1, 3), (4, 2), (2, 1), (3, 1), (17, 1)])
+                items_sup = None
+                if r.chance(1, 5):
+                    # the whole catalogue in another order (rotated, a few transpositions) with two unknown items put in
+                    k = r.randint(1, N - 1)
+                    items_sup = items[k:] + items[:k]
+                    for _ in range(r.randint(0, 6)):
+                        a, b = r.below(N), r.below(N)
+                        items_sup[a], items_sup[b] = items_sup[b], items_sup[a]
+                    for x in (N + 7, N + 9):
+                        items_sup.insert(r.below(N), x)
+                out.append({"ds": ds, "pipe": pipe, "query": {"form": "id", "user": u}, "items": items_sup,
+                            "items_form": gen_items_form(r) if items_sup is not None else "ids",
+                            "run_n": r.choice(ns), "style": "valid"})
+    return out
+
+
 def gen_cases(rng, tier):
     nds = 70 if tier == "quick" else 500
     out = []
@@ -194,6 +317,9 @@ def gen_cases(rng, tier):
             pipe = gen_pipe(r, malformed)
             if not malformed and r.chance(2, 5):
                 pipe["prior"] = gen_prior(r.fork(("prior", pi)), ds)
+            rs = r.fork(("siblings", pi))
+            if not malformed and rs.chance(1, 3):
+                pipe["siblings"] = gen_siblings(rs, ds)
             for qi in range(3):
                 q = gen_query(r, ds, malformed)
                 items = gen_items(r, ds, q, often=pipe["predicts"] in (True, "custom"))
@@ -202,9 +328,10 @@ def gen_cases(rng, tier):
                 run_n = gen_n(r)
                 if malformed and r.chance(1, 4):
                     run_n = 0
-                out.append({"ds": ds, "pipe": pipe, "query": q, "items": items, "run_n": run_n,
+                form = gen_items_form(r.fork(("items-form", pi, qi))) if items is not None else "ids"
+                out.append({"ds": ds, "pipe": pipe, "query": q, "items": items, "items_form": form, "run_n": run_n,
                             "style": "malformed" if malformed else "valid"})
-    return out
+    return gen_big_cases(rng.fork("catalogue-size"), tier) + out
 
 
 # ---------------------------------------------------------------------------------------------
@@ -277,7 +404,21 @@ def _scorer(s):
         return L.KnownRatingScorer(score=s["score"])
     if k == "iknn":
         return L.ItemKNNScorer(k=s["k"], min_nbrs=1, feedback=s["feedback"])
-    return L.c03_synth.SynthScorer(seed=s["seed"], levels=s["levels"], nan_num=s["nan_num"], mode=s["mode"], f32=s["f32"], scores=s["scores"])
+    return L.c03_synth.SynthScorer(seed=s["seed"], levels=s["levels"], nan_num=s["nan_num"], nan_den=s.get("nan_den", 8), mode=s["mode"], f32=s["f32"], scores=s["scores"])
+
+
+def _build_sibling(sb):
+    sc = _scorer(sb["scorer"])
+    if sb["kind"] == "topn":
+        pipe = L.topn_pipeline(sc)
+    elif sb["kind"] == "builder":
+        b = L.RecPipelineBuilder()
+        b.scorer(sc)
+        pipe = b.build()
+    else:
+        pipe = L.predict_pipeline(sc, fallback=False)
+    pipe.train(_dataset(sb["ds"]))
+    return pipe
 
 
 def _pipeline(case):
@@ -288,6 +429,9 @@ def _pipeline(case):
         _cache.clear()
     ds = _dataset(case["ds"])
     p = case["pipe"]
+    sibs = p.get("siblings") or []
+    # other standard pipelines of this process that exist before this one is built
+    sib_objs = {k: _build_sibling(sb) for k, sb in enumerate(sibs) if sb["when"] == "before"}
     sc = _scorer(p["scorer"])
     prior_obs = []
     if p["kind"] == "topn":
@@ -322,7 +466,26 @@ def _pipeline(case):
                 ent[str(u)] = _err(e)
         prior_obs.append(ent)
     pipe.train(ds)
-    _cache[key] = (ds, pipe, prior_obs)
+    # ... and those built and trained afterwards; then every one of them is asked (all objects stay alive)
+    for k, sb in enumerate(sibs):
+        if sb["when"] != "before":
+            sib_objs[k] = _build_sibling(sb)
+    sib_obs = []
+    for k, sb in enumerate(sibs):
+        sds, ent = sb["ds"], {}
+        for u in sb["users"]:
+            try:
+                if sb["kind"] == "predict":
+                    r = L.predict(sib_objs[k], _uid(sds, u), [_iid(sds, i) for i in sds["items"]])
+                    ent[str(u)] = {"pred": [_back(sds, x) for x in r.ids()]}
+                else:
+                    st = sib_objs[k].run_all("recommender", query=_uid(sds, u))
+                    ent[str(u)] = {"cand": [_back(sds, x) for x in st["candidates"].ids()],
+                                   "rec": [_back(sds, x) for x in st["recommender"].ids()]}
+            except Exception as e:  # noqa: BLE001
+                ent[str(u)] = {"err": _err(e)}
+        sib_obs.append(ent)
+    _cache[key] = (ds, pipe, prior_obs, sib_obs, sib_objs)
     return _cache[key]
 
 
@@ -357,10 +520,29 @@ def _query(case, form, dsobj):
     raise AssertionError(form)
 
 
-def _items(case):
+def _items(case, api=False):
+    """the caller-supplied candidate list in the representation the case asks for (`api`: as handed to lenskit.recommend /
+    predict, which also take bare identifier lists and arrays; otherwise as the `items` input of a pipeline run)"""
     if case["items"] is None:
         return None
-    return [_iid(case["ds"], i) for i in case["items"]]
+    ids = [_iid(case["ds"], i) for i in case["items"]]
+    form = case.get("items_form", "ids")
+    k = len(ids)
+    if form == "ids":
+        return ids if api else L.ItemList(item_ids=ids)
+    if form == "array":
+        arr = np.array(ids) if ids else np.array([], dtype="U4" if case["ds"]["strids"] else np.int64)
+        return arr if api else L.ItemList(item_ids=arr)
+    if form == "ordered":
+        return L.ItemList(item_ids=ids, ordered=True)
+    if form == "ranked":
+        return L.ItemList(item_ids=ids, rank=np.arange(1, k + 1, dtype=np.int32))
+    stale = [((i * 7) % 5) / 2.0 + 1.0 for i in case["items"]]       # scores some other model gave, unrelated to this pipeline's
+    if form == "scored":
+        return L.ItemList(item_ids=ids, scores=np.array(stale, dtype=np.float64))
+    if form == "prev":                                              # the output of an earlier stage: best first by ITS scores, ranked
+        return L.ItemList(item_ids=ids, scores=np.array(sorted(stale, reverse=True), dtype=np.float64), ordered=True)
+    raise AssertionError(form)
 
 
 def _err(e):
@@ -391,8 +573,8 @@ def has_fallback(case):
 
 def run_impl(case):
     _setup()
-    dsobj, pipe, prior_obs = _pipeline(case)
-    obs = {"vocab": [_back(case["ds"], x) for x in dsobj.items.ids()], "prior": prior_obs}
+    dsobj, pipe, prior_obs, sib_obs, _ = _pipeline(case)
+    obs = {"vocab": [_back(case["ds"], x) for x in dsobj.items.ids()], "prior": prior_obs, "siblings": sib_obs}
     form = case["query"]["form"]
     n = case["run_n"]
 
@@ -400,7 +582,7 @@ def run_impl(case):
         kw = {"query": _query(case, f, dsobj)}
         it = _items(case)
         if it is not None:
-            kw["items"] = L.ItemList(item_ids=it)
+            kw["items"] = it
         return kw
 
     # one run of everything: candidate list, scorer output, ranking, predictions
@@ -559,14 +741,14 @@ def run_impl(case):
         ent = {}
         if has_rec(case):
             try:
-                r = L.recommend(pipe, _query(case, f, dsobj), n, _items(case))
+                r = L.recommend(pipe, _query(case, f, dsobj), n, _items(case, api=True))
                 ent["rec"] = _il(case, r)
                 ent["ordered"] = bool(r.ordered)
             except Exception as e:  # noqa: BLE001
                 ent["rec_err"] = _err(e)
         if has_pred(case):
             try:
-                it = _items(case)
+                it = _items(case, api=True)
                 if it is None:
                     r = pipe.run("rating-predictor", query=_query(case, f, dsobj))
                 else:
@@ -585,7 +767,9 @@ def run_impl(case):
 
 
 def c_score(v):
-    return copt(None if v is None else fparse(v), cq)
+    # `None` with its implicit argument left to unification costs time quadratic in the length of the list (a 10^4-row score
+    # column took minutes to elaborate); with the type written out it is linear
+    return "(@None Q)" if v is None else copt(fparse(v), cq)
 
 
 def c_rows(il):
@@ -593,9 +777,57 @@ def c_rows(il):
     return clist(list(zip(il["ids"], sc)), lambda p: f"({cz(p[0])}, {c_score(p[1])})")
 
 
-def c_ilist(il):
-    s = "None" if il["scores"] is None else "(Some " + clist(il["scores"], c_score) + ")"
-    return f"({clist(il['ids'], cz)}, {s})"
+def c_scores(sc):
+    """a score column; long ones with runs of missing scores are written run by run (`nones k`)"""
+    if len(sc) <= 64:
+        return clist(sc, c_score)
+    segs, run, lit = [], 0, []
+
+    def flush_lit():
+        if lit:
+            segs.append(clist(lit, c_score))
+            lit.clear()
+    for x in list(sc) + ["end"]:
+        if x is None:
+            run += 1
+            continue
+        if run >= 8:
+            flush_lit()
+            segs.append(f"nones {run}")
+        else:
+            lit.extend([None] * run)
+        run = 0
+        if x != "end":
+            lit.append(x)
+    flush_lit()
+    return "(" + " ++ ".join(segs) + ")" if segs else "[]"
+
+
+def c_zlist(l):
+    """an identifier list; in a long one runs of consecutive integers are written as ranges"""
+    if len(l) <= 64:
+        return clist(l, cz)
+    segs, lit, i = [], [], 0
+    while i < len(l):
+        j = i
+        while j + 1 < len(l) and l[j + 1] == l[j] + 1:
+            j += 1
+        if j - i + 1 >= 8:
+            if lit:
+                segs.append(clist(lit, cz))
+                lit = []
+            segs.append(f"zrange {cz(l[i])} {j - i + 1}")
+        else:
+            lit.extend(l[i:j + 1])
+        i = j + 1
+    if lit:
+        segs.append(clist(lit, cz))
+    return "(" + " ++ ".join(segs) + ")"
+
+
+def c_ilist(il, ids=None):
+    s = "None" if il["scores"] is None else "(Some " + c_scores(il["scores"]) + ")"
+    return f"({ids or clist(il['ids'], cz)}, {s})"
 
 
 def c_dataset(ds):
@@ -603,7 +835,7 @@ def c_dataset(ds):
     for u, i, r in ds["ratings"]:
         rows[u].append((i, r))
     rs = clist(sorted(rows), lambda u: f"({cz(u)}, {clist(sorted(rows[u]), lambda p: f'({cz(p[0])}, {c_score(p[1])})')})")
-    return f"{{| ds_items := {clist(sorted(ds['items']), cz)}; ds_rows := {rs} |}}"
+    return f"{{| ds_items := {c_zlist(sorted(ds['items']))}; ds_rows := {rs} |}}"
 
 
 def c_qinput(q):
@@ -628,7 +860,19 @@ def c_events(case):
         sup = copt(sorted(ph["ds"]["items"]) if p["kind"] == "predict" else None, lambda l: clist(l, cz))
         evs += [f"Ask (QId {cz(u)}) {sup}" for u in ph["users"]]
     evs.append(f"Train {c_dataset(case['ds'])}")
-    return "[" + "; ".join(evs) + "]"
+    return evs
+
+
+def c_world(case):
+    """the process history: which pipeline object (0 = the case's, k + 1 = sibling k) each train() / query happened to"""
+    sibs = case["pipe"].get("siblings") or []
+    w = [f"({k + 1}%nat, Train {c_dataset(sb['ds'])})" for k, sb in enumerate(sibs) if sb["when"] == "before"]
+    w += [f"(0%nat, {e})" for e in c_events(case)]
+    w += [f"({k + 1}%nat, Train {c_dataset(sb['ds'])})" for k, sb in enumerate(sibs) if sb["when"] != "before"]
+    return "[" + "; ".join(w) + "]"
+
+
+COQ_COST = 500_000          # model-side steps (row comparisons) spent on the rankings of one case; a single ranking beyond it is left to the oracle alone
 
 
 W_NAMES = {"query": "Nquery", "items": "Nitems", "n": "Nn", "history-lookup": "Nlookup", "candidate-selector": "Ncandsel",
@@ -660,13 +904,34 @@ def coq_term(case, obs):
         # the run stopped before the scorer (predict_pipeline without items): nothing to compare
         return None
     p = case["pipe"]
-    parts = []
-    supplied = copt(case["items"], lambda l: clist(l, cz))
     if p["kind"] == "predict" and case["items"] is None:
         return None
+    nv = sum(1 for x in (obs["scored"]["scores"] or []) if x is not None)
+
+    def rank_cost(out):         # steps of one agree_rank: insertion sort of the scored rows, order / membership / omission tests of the checker
+        k = len(out["ids"])
+        return nv * nv + k * k + k * len(obs["cand"]) + 2 * nv * k
+    budget = [COQ_COST]
+    if "out" in obs and rank_cost(obs["out"]) > budget[0]:
+        return None             # a long list with most of it scored: the quadratic model-side sort / membership tests are not worth it
+    parts = []
+    # long values are bound once (the catalogue-size cases carry lists of >= 10^4 rows); a list that IS the candidate list, element by
+    # element, is written by that name
+    supplied = "(Some o_cand)" if case["items"] == obs["cand"] else copt(case["items"], lambda l: clist(l, cz))
+    binds = [("o_w", "list wevent", c_world(case)), ("o_cand", "list Z", c_zlist(obs["cand"])),
+             ("o_sc", "ilist", c_ilist(obs["scored"], ids="o_cand" if obs["scored"]["ids"] == obs["cand"] else None)),
+             ("o_rows", "scored", "rows o_sc")]
+
+    def il(v):                  # an observed item list; the scorer's own output by name when it is that very value
+        return "o_sc" if (v["ids"], v["scores"]) == (obs["scored"]["ids"], obs["scored"]["scores"]) else c_ilist(v)
+
     c_hist = "(Some " + copt(obs["hist"], lambda l: clist(l, cz)) + ")" if obs["hist_run"] else "None"
-    parts.append(f"agree_front_after {c_events(case)} {c_qinput(case['query'])} {supplied} "
-                 f"{c_hist} {clist(obs['cand'], cz)} {clist(obs['scored']['ids'], cz)}")
+    parts.append(f"agree_front_in 0 o_w {c_qinput(case['query'])} {supplied} {c_hist} o_cand (fst o_sc)")
+    for k, (sb, ent) in enumerate(zip(p.get("siblings") or [], obs.get("siblings") or [])):
+        for u in sb["users"]:
+            got = ent.get(str(u), {})
+            if "cand" in got:       # every other object answers from its own data, too
+                parts.append(f"agree_front_in {k + 1} o_w (QId {cz(u)}) None None {clist(got['cand'], cz)} {clist(got['cand'], cz)}")
     if "wiring" in obs:
         parts.append(c_wiring(case, obs["wiring"]))
     cfg, run = c_pyv(p["cfg_n"]), c_pyv(case["run_n"])
@@ -675,33 +940,38 @@ def coq_term(case, obs):
             e = obs["errors"]["recommender"]
             if e not in ("ENoScores", "EType", "EPipeline"):
                 return "false"
-            items = "None" if obs["scored"]["scores"] is None else f"(Some {c_rows(obs['scored'])})"
+            items = "None" if obs["scored"]["scores"] is None else "(Some o_rows)"
             parts.append(f"agree_err {items} {cfg} {run} {e}")
         elif obs["scored"]["scores"] is None:
             parts.append("false")
         else:
-            parts.append(f"agree_rank {cfg} {run} {clist(obs['cand'], cz)} {c_rows(obs['scored'])} {c_rows(obs['out'])} {cbool(obs['ordered'])}")
+            budget[0] -= rank_cost(obs["out"])
+            parts.append(f"agree_rank {cfg} {run} o_cand o_rows {c_rows(obs['out'])} {cbool(obs['ordered'])}")
     if has_pred(case) and "rating-predictor" not in obs["errors"]:
-        parts.append(f"agree_pred {cbool(has_fallback(case))} {c_ilist(obs['pred_primary'])} "
+        parts.append(f"agree_pred {cbool(has_fallback(case))} {il(obs['pred_primary'])} "
                      f"{copt(obs['fb'], c_ilist)} {c_ilist(obs['pred'])}")
-        parts.append(f"ilist_eqb {c_ilist(obs['pred_primary'])} {c_ilist(obs['scored'])}")
-        parts.append(f"agree_backup_items {clist(obs['cand'], cz)} {copt(obs['fb'], c_ilist)}")
+        parts.append(f"ilist_eqb {il(obs['pred_primary'])} o_sc")
+        parts.append(f"agree_backup_items o_cand {copt(obs['fb'], c_ilist)}")
     elif has_pred(case):
         parts.append("false")
     # several nodes requested from one run: each requested output against the model, with the scorer's own output
     for ent in obs.get("multi", []):
         if "err" in ent or obs["scored"]["scores"] is None:
             continue
-        if "recommender" in ent:
-            parts.append(f"agree_rank {cfg} {run} {clist(obs['cand'], cz)} {c_rows(obs['scored'])} {c_rows(ent['recommender'])} {cbool(ent['ordered'])}")
+        if "recommender" in ent and rank_cost(ent["recommender"]) <= budget[0]:        # (as many of the multi-node runs as the cost cap allows)
+            budget[0] -= rank_cost(ent["recommender"])
+            parts.append(f"agree_rank {cfg} {run} o_cand o_rows {c_rows(ent['recommender'])} {cbool(ent['ordered'])}")
         if "rating-predictor" in ent:
             fbv = ent["nodes"].get("fallback-predictor")
-            parts.append(f"agree_pred {cbool(has_fallback(case))} {c_ilist(obs['scored'])} {copt(fbv, c_ilist)} {c_ilist(ent['rating-predictor'])}")
-            parts.append(f"agree_backup_items {clist(obs['cand'], cz)} {copt(fbv, c_ilist)}")
+            parts.append(f"agree_pred {cbool(has_fallback(case))} o_sc {copt(fbv, c_ilist)} {c_ilist(ent['rating-predictor'])}")
+            parts.append(f"agree_backup_items o_cand {copt(fbv, c_ilist)}")
         sv = ent["nodes"].get("scorer")
         if sv is not None:
-            parts.append(f"ilist_eqb {c_ilist(sv)} {c_ilist(obs['scored'])}")       # the scorer's output is a value: nobody alters it
-    return " && ".join(f"({x})" for x in parts)
+            parts.append(f"ilist_eqb {il(sv)} o_sc")       # the scorer's output is a value: nobody alters it
+    body = " && ".join(f"({x})" for x in parts)
+    for name, ty, val in reversed(binds):
+        body = f"let {name} : {ty} := {val} in {body}"
+    return body
 
 
 # ---------------------------------------------------------------------------------------------
@@ -740,30 +1010,31 @@ def _check_ranking(v, tag, case, cand, scored, out, ordered):
     smap = dict(_rows(scored))
     rows = _rows(out)
     ids = [i for i, _ in rows]
+    cset, idset = set(cand), set(ids)
     n = _n_eff(case)
     if not ordered:
         v.append((f"{tag}:not-ordered", "the recommendation list is not flagged as ordered"))
-    if any(i not in cand for i in ids):
-        v.append((f"{tag}:non-candidate", f"list contains {[i for i in ids if i not in cand]} which are not candidates {cand}"))
+    if any(i not in cset for i in ids):
+        v.append((f"{tag}:non-candidate", f"list contains {[i for i in ids if i not in cset][:20]} which are not candidates {_short(cand)}"))
     if len(set(ids)) != len(ids):
         v.append((f"{tag}:duplicate", f"duplicate items in {ids}"))
     if any(s is None for _, s in rows):
         v.append((f"{tag}:unscored", "list contains an item without a score"))
     vals = [s for _, s in rows if s is not None]
     if any(a < b for a, b in zip(vals, vals[1:])):
-        v.append((f"{tag}:order", f"scores are not non-increasing: {[float(x) for x in vals]}"))
+        v.append((f"{tag}:order", f"scores are not non-increasing: {[float(x) for x in vals][:40]}"))
     if any(i not in smap or smap[i] != s for i, s in rows):
         v.append((f"{tag}:scores-differ", "a listed score is not the score the scoring model returned for that item in the same run"))
     scorable = [i for i in cand if smap.get(i) is not None]
     want = len(scorable) if n < 0 else min(n, len(scorable))
     if len(rows) != want:
         v.append((f"{tag}:length", f"length {len(rows)} but min(n={n}, scorable={len(scorable)}) = {want} "
-                                   f"(configured {case['pipe']['cfg_n']}, run-time {case['run_n']})"))
+                                   f"(configured {case['pipe']['cfg_n']}, run-time {case['run_n']}; {len(cand)} candidates)"))
     if vals:
         low = min(vals)
-        better = [i for i in scorable if i not in ids and smap[i] > low]
+        better = [i for i in scorable if i not in idset and smap[i] > low]
         if better:
-            v.append((f"{tag}:omitted-better", f"candidates {better} score above an included item but were left out"))
+            v.append((f"{tag}:omitted-better", f"candidates {better[:20]} score above an included item but were left out"))
 
 
 def oracle(case, obs):
@@ -785,9 +1056,10 @@ def oracle(case, obs):
         v.append(("vocabulary", "item vocabulary is not the training items"))
     if cand != want_cand:
         if case["items"] is not None:
-            v.append(("candidates:supplied", f"candidates {cand} are not exactly the supplied list {want_cand}"))
+            v.append(("candidates:supplied", f"candidates {_short(cand)} are not exactly the supplied list {_short(want_cand)} "
+                                             f"(handed over as: {case.get('items_form', 'ids')})"))
         else:
-            v.append(("candidates:unseen", f"candidates {cand} are not the training items minus the history {want_cand}"))
+            v.append(("candidates:unseen", f"candidates {_short(cand)} are not the training items minus the history {_short(want_cand)}"))
     if obs.get("hist_run"):
         q = case["query"]
         if q["form"] == "items":
@@ -864,6 +1136,7 @@ def oracle(case, obs):
                 if f != case["query"]["form"] and ent.get("pred") != a0.get("pred"):
                     v.append((f"query-form:{f}:pred", f"query form {f} predicts differently from the bare identifier"))
     _check_prior(v, case, obs)
+    _check_siblings(v, case, obs)
     _check_multi(v, case, obs, cand, bad_scorer)
     seen, out = set(), []
     for k, w in v:
@@ -889,6 +1162,33 @@ def _check_prior(v, case, obs):
             if bad:
                 v.append((f"prior[{k}]:non-candidate", f"while trained on the earlier data set #{k}, user {u} was recommended {bad}: not unseen items of that data"))
                 return
+
+
+def _check_siblings(v, case, obs):
+    """The other standard pipelines alive in the process (trained before / after this one): each answers from ITS data."""
+    for k, (sb, ent) in enumerate(zip(case["pipe"].get("siblings") or [], obs.get("siblings") or [])):
+        sds = sb["ds"]
+        for u in sb["users"]:
+            got = ent.get(str(u)) or {}
+            seen = {i for a, i, _ in sds["ratings"] if a == u} if u in sds["users"] else set()
+            want = [i for i in sorted(sds["items"]) if i not in seen]
+            tag = f"sibling[{sb['when']}]"
+            if "err" in got:
+                v.append((f"{tag}:error", f"a pipeline trained {sb['when']} this one raised {got['err']} for user {u}"))
+            elif "cand" in got and got["cand"] != want:
+                v.append((f"{tag}:candidates", f"pipeline #{k + 1} (built and trained {sb['when']} the case's pipeline, on its own data) gives user {u} the candidates "
+                                               f"{_short(got['cand'])}, not its training items minus the history {_short(want)}"))
+            elif "rec" in got and any(i not in want for i in got["rec"]):
+                v.append((f"{tag}:non-candidate", f"pipeline #{k + 1} recommends {[i for i in got['rec'] if i not in want]} to user {u}: not unseen items of its data"))
+            elif "pred" in got and got["pred"] != list(sds["items"]):
+                v.append((f"{tag}:predict-items", f"pipeline #{k + 1} predicts for {got['pred']}, asked about {sds['items']}"))
+            else:
+                continue
+            return
+
+
+def _short(l):
+    return str(l) if len(l) <= 40 else f"{l[:20]} ... ({len(l)} items)"
 
 
 def _check_multi(v, case, obs, cand, bad_scorer):
@@ -966,6 +1266,18 @@ def counters(case, obs):
         if len(set(vals)) < len(vals):
             yield "ties"
     yield "life=" + ("fresh" if not p.get("prior") else f"retrained-x{len(p['prior'])}")
+    ni = len(ds["items"])
+    yield "catalogue=" + ("<=15" if ni <= 15 else "medium(400-5000)" if ni < 5000 else "large(>=5000)")
+    if ni > 15:
+        for t in size_thresholds():
+            yield f"catalogue-vs-source-threshold-{t}=" + ("at-or-above" if ni >= t else "below")
+        if "out" in obs and obs["scored"] and obs["scored"]["scores"] is not None and _n_eff(case) > 0:
+            nv_ = sum(1 for x in obs["scored"]["scores"] if x is not None)
+            yield "long-list:scorable-vs-n=" + ("fewer" if nv_ < _n_eff(case) else "equal" if nv_ == _n_eff(case) else "more")
+    if case["items"] is not None:
+        yield "candidates-handed-over-as=" + case.get("items_form", "ids")
+    for sb in p.get("siblings") or []:
+        yield f"other-pipeline-alive=trained-{sb['when']}" + ("/smaller-catalogue" if set(ds["items"]) - set(sb["ds"]["items"]) else "")
     if p.get("prior") and case["query"]["form"] == "id":
         h_now = sorted(i for a, i, _ in ds["ratings"] if a == u) if u in ds["users"] else None
         for ph in p["prior"]:
@@ -983,20 +1295,55 @@ def counters(case, obs):
 
 
 def sample(case, obs):
-    return {"case": {"pipe": {k: v for k, v in case["pipe"].items() if k != "prior"}, "prior_phases": len(case["pipe"].get("prior") or []),
-                     **{k: case[k] for k in ("query", "items", "run_n")}}, "dataset": {"users": len(case["ds"]["users"]), "items": len(case["ds"]["items"]), "ratings": len(case["ds"]["ratings"])},
-            "observation": {k: obs.get(k) for k in ("errors", "cand", "out")}}
+    big = len(case["ds"]["items"]) > 100
+    return {"case": {"pipe": {k: v for k, v in case["pipe"].items() if k not in ("prior", "siblings")}, "prior_phases": len(case["pipe"].get("prior") or []),
+                     "other_pipelines_alive": len(case["pipe"].get("siblings") or []), "items_form": case.get("items_form", "ids"),
+                     **{k: (case[k] if not (big and k == "items" and case[k]) else f"<{len(case[k])} items>") for k in ("query", "items", "run_n")}},
+            "dataset": {"users": len(case["ds"]["users"]), "items": len(case["ds"]["items"]), "ratings": len(case["ds"]["ratings"])},
+            "observation": {k: (obs.get(k) if not big else (_short(obs[k]) if isinstance(obs.get(k), list) else
+                                                           {"n_ids": len(obs[k]["ids"])} if isinstance(obs.get(k), dict) and "ids" in obs[k] else obs.get(k)))
+                            for k in ("errors", "cand", "out")}}
 
 
 _SHRUNK = [0]
 
 
-def shrink(case, fails):
+def shrink(case, fails0):
     if _SHRUNK[0] >= 5:                      # cost cap: at most five failing keys are minimised per run
         return case
     _SHRUNK[0] += 1
+
+    def fails(c):
+        # every candidate is judged on freshly built pipeline objects: objects kept from earlier attempts (and whatever a defect
+        # lets them share with later ones) must not decide whether a smaller case "still fails"
+        _cache.clear()
+        return fails0(c)
+    try:
+        return _shrink(case, fails)
+    finally:
+        _cache.clear()                       # ... nor what the replayed observation of the result looks like
+
+
+def _shrink(case, fails):
     c = dict(case)
     pipe = dict(c["pipe"])
+    if len(c["ds"]["items"]) > 100:          # catalogue-size cases: the size is the point and every run costs seconds -- only the ratings, briefly
+        ds = dict(c["ds"])
+        ds["ratings"] = common.shrink_list(ds["ratings"], lambda xs: fails({**c, "ds": {**ds, "ratings": xs}}), 6)
+        c["ds"] = ds
+        return c
+    if pipe.get("siblings"):                 # the other pipelines of the process: fewer of them, fewer queries
+        sb = common.shrink_list(pipe["siblings"], lambda xs: fails({**c, "pipe": {**pipe, "siblings": xs}}), 4)
+        sb = [dict(x) for x in sb]
+        for k in range(len(sb)):
+            def with_sib_users(us, k=k):
+                return {**c, "pipe": {**pipe, "siblings": sb[:k] + [{**sb[k], "users": us}] + sb[k + 1:]}}
+            sb[k]["users"] = common.shrink_list(sb[k]["users"], lambda us: fails(with_sib_users(us)), 8)
+        if sb:
+            pipe["siblings"] = sb
+        else:
+            pipe.pop("siblings")
+        c["pipe"] = pipe
     if pipe.get("prior"):                    # the earlier life: fewer phases, fewer queries
         pr = common.shrink_list(pipe["prior"], lambda xs: fails({**c, "pipe": {**pipe, "prior": xs}}), 4)
         pr = [dict(ph) for ph in pr]
